@@ -43,6 +43,10 @@ pub struct PipeCfg {
     /// any data was consumed: a transient error a reader is expected to
     /// retry.
     pub eintr: bool,
+    /// A write that follows a short write now and then fails with
+    /// `ErrorKind::Interrupted` (nothing taken): part of the data is out,
+    /// the rest is not.
+    pub eintr_w: bool,
 }
 
 impl Default for PipeCfg {
@@ -53,6 +57,7 @@ impl Default for PipeCfg {
             stall: false,
             window: 1 << 20,
             eintr: false,
+            eintr_w: false,
         }
     }
 }
@@ -70,6 +75,10 @@ struct Half {
     read: u64,
     /// The network cuts this direction when `written` reaches the offset.
     cut_at: Option<(u64, Cut)>,
+    /// The last write took fewer octets than it was given.
+    last_write_short: bool,
+    /// A write on this direction failed with EINTR (injected).
+    write_interrupted: bool,
     /// Set once the writer side may not write any more.
     write_dead: Option<Cut>,
     /// What the reader sees once `buf` is drained.
@@ -88,6 +97,8 @@ impl Half {
             written: 0,
             read: 0,
             cut_at: None,
+            last_write_short: false,
+            write_interrupted: false,
             write_dead: None,
             end: None,
             reader_gone: false,
@@ -198,6 +209,10 @@ impl LinkCtl {
     }
     pub fn written_b_to_a(&self) -> u64 {
         self.b_to_a.lock().unwrap().written
+    }
+    /// Did a write of the b side fail with an injected EINTR?
+    pub fn b_write_interrupted(&self) -> bool {
+        self.b_to_a.lock().unwrap().write_interrupted
     }
     /// The b side vanishes without a word (crash, route lost): nothing more
     /// arrives from it, not even the end of the stream, and whatever a
@@ -376,6 +391,14 @@ impl AsyncWrite for SimStream {
         if g.reader_gone {
             return Poll::Ready(Err(io::Error::new(io::ErrorKind::BrokenPipe, "peer closed")));
         }
+        if this.cfg.eintr_w && g.last_write_short && !g.write_interrupted && sim::chance("net.eintr.w", 1, 4) {
+            g.write_interrupted = true;
+            g.last_write_short = false;
+            drop(g);
+            sim::stat("fault.stream_write_interrupted_after_a_short_write");
+            ev!("net {} write interrupted (EINTR) behind a short write", this.name);
+            return Poll::Ready(Err(io::Error::new(io::ErrorKind::Interrupted, "simulated EINTR")));
+        }
         let pending = g.pending_bytes();
         if pending >= this.cfg.window {
             g.write_waker = Some(cx.waker().clone());
@@ -399,6 +422,7 @@ impl AsyncWrite for SimStream {
             }
         }
         g.written += n as u64;
+        g.last_write_short = n < data.len();
         let lat = this.cfg.latency_ms;
         if let Some(kind) = cut_now {
             g.write_dead = Some(kind);
